@@ -881,7 +881,8 @@ func (r Req) bytes() []byte {
 	if r.Gap > 0 {
 		fmt.Fprintf(&b, "X-Gap: %d\r\n", int64(r.Gap))
 	}
-	if r.Mode == "upgrade" {
+	if r.Mode == "upgrade" || r.Mode == "upgrade-refused" {
+		// "upgrade-refused": the client asks for an upgrade, the target answers as plain HTTP
 		b.WriteString("Connection: Upgrade\r\nUpgrade: websocket\r\n")
 	} else {
 		b.WriteString("Connection: close\r\n")
